@@ -837,13 +837,13 @@ func (p *NewForm) typecheckForm(gammaNameTypesCtx NamesTypesCtx, providerShadowN
 			// first split gamma (take parameters from gamma)
 			gammaLeftNameTypesCtx, gammaRightNameTypesCtx, gammaErr := splitGammaCtx(gammaNameTypesCtx, callForm.parameters, nil, labelledTypesEnv)
 
+			if gammaErr != nil {
+				return TypeErrorf("error when splitting variable context in '%s': %s", p.StringShort(), gammaErr)
+			}
+
 			if new_name_reused {
 				// re-add new name after context splitting
 				gammaRightNameTypesCtx[p.new_name_c.Ident] = NamesType{Type: p.new_name_c.Type}
-			}
-
-			if gammaErr != nil {
-				return TypeErrorf("error when splitting variable context in '%s': %s", p.StringShort(), gammaErr)
 			}
 			// Get function signature (incl. its type)
 			functionSignature, exists := sigma[callForm.functionName]
@@ -898,13 +898,13 @@ func (p *NewForm) typecheckForm(gammaNameTypesCtx NamesTypesCtx, providerShadowN
 			// Split gamma
 			gammaLeftNameTypesCtx, gammaRightNameTypesCtx, gammaErr := splitGammaCtx(gammaNameTypesCtx, p.body.FreeNames(), nil, labelledTypesEnv)
 
+			if gammaErr != nil {
+				return TypeErrorf("error when splitting variable context in '%s': %s", p.StringShort(), gammaErr)
+			}
+
 			if new_name_reused {
 				// re-add new name after context splitting
 				gammaRightNameTypesCtx[p.new_name_c.Ident] = NamesType{Type: p.new_name_c.Type}
-			}
-
-			if gammaErr != nil {
-				return TypeErrorf("error when splitting variable context in '%s': %s", p.StringShort(), gammaErr)
 			}
 
 			if p.new_name_c.Type == nil {
